@@ -8,7 +8,15 @@ grants the step (impl/impl_c14.py), and on model/Locks.v inside Coq (model/Locks
 the (thread, event) traces are compared and the observed trace is judged on its own by the
 specification's judge (model/LocksSpec.v: bodies never overlap, every reply goes to its
 requester), which C14_trace_accepted proves to accept every trace of the model.
-Thorough tier: ALL schedules of a small depth (every pick moving) for three thread systems.
+Thorough tier: ALL schedules of a small depth (every pick moving) for four thread systems.
+
+CONFIGURATION (model/LocksCfg.v, model/LocksCfgTie.v): schedules also contain configuration
+changes performed in some process at any point (term_image.disable_queries() / enable_queries(),
+enable_win_size_swap() / disable_win_size_swap(), set_query_timeout(): before the first
+Process.start(), between starts, while a start is in flight, in the children), every simulated
+process has its own instance of the library module (start methods "spawn": fresh, "fork": copy of
+the parent's module state), and the model replays the same items (the code's hand-over does not
+look at the configuration: C14_config_mutex, C14_start_handover_ignores_configuration).
 
 Also: a source-shape scan (every inline `with` over the terminal lock acquires it twice).
 
@@ -25,13 +33,15 @@ import tempfile
 import core
 
 LEVEL = "proof"
-EXTRA_TARGETS = ["model/LocksTie.vo", "model/ExchangeTie.vo"]
+EXTRA_TARGETS = ["model/LocksTie.vo", "model/ExchangeTie.vo", "model/LocksCfgTie.vo"]
+CONF = 1000  # schedule items >= CONF: configuration changes, CONF + 8*process + 2*field + value
 TERM = 0
 SHARD = 24
 HANG_SEEN = False
 
 HEADER = ("From Coq Require Import List Arith Bool ZArith.\nImport ListNotations.\n"
-          "From TI Require Import lib.Sched model.Locks model.LocksTie.\nOpen Scope nat_scope.\n")
+          "From TI Require Import lib.Sched model.Locks model.LocksTie model.LocksCfg model.LocksCfgTie.\n"
+          "Open Scope nat_scope.\n")
 
 
 HEADER_X = ("From Coq Require Import List Arith Bool.\nImport ListNotations.\n"
@@ -146,7 +156,34 @@ def gen_case(rng, depth=40):
         run = 1 if mode < 0.4 else rng.choice([1, 1, 2, 3, 5])
         sched += [t] * run
     sched = sched[:rng.randint(depth // 2, depth)]
-    return {"threads": threads, "sched": sched}
+    # the library's configuration changes at any point, in any (simulated) process: before the first
+    # start (often at the very beginning), between starts, while a start is in flight, in the children
+    procs = sorted({t[1] for t in threads})
+    style = rng.random()
+    if style < 0.75:
+        for _ in range(rng.choice([1, 1, 2, 3, 5])):
+            sched.insert(rng.randint(0, len(sched)), conf_item(rng, procs))
+    if style < 0.45:
+        # a setting changed before anything else happens (boundary): mostly "queries disabled"
+        sched.insert(0, CONF + 2 * rng.choice([0, 0, 0, 1, 2]) + rng.choice([0, 0, 0, 1]))
+    return {"threads": threads, "sched": sched, "method": rng.choice(["spawn", "fork"])}
+
+
+def conf_item(rng, procs):
+    p = rng.choice([0, 0, 0] + procs)
+    f = rng.choice([0, 0, 0, 0, 1, 1, 2])
+    return CONF + 8 * p + 2 * f + rng.choice([0, 0, 1])
+
+
+CONF_NAMES = {(0, 0): "disable_queries", (0, 1): "enable_queries", (1, 0): "disable_win_size_swap",
+              (1, 1): "enable_win_size_swap", (2, 0): "set_query_timeout(default)", (2, 1): "set_query_timeout(0.25)"}
+
+
+def item_str(x):
+    if x < CONF:
+        return str(x)
+    m = x - CONF
+    return "[P%d:%s]" % (m // 8, CONF_NAMES.get((m % 8 // 2, m % 2), "field%d=%d" % (m % 8 // 2, m % 2)))
 
 
 # the race the second `with` item exists for: 2 reads T and waits, 1 swaps the lock and
@@ -168,6 +205,23 @@ CORPUS = [
     {"threads": [[1, 0, [["start", 10]]], [2, 0, [["start", 12]]], [3, 0, [["call", 0, 0]]],
                  [10, 10, [["call", 0, 0]]], [12, 12, [["call", 0, 1]]]],
      "sched": [1, 2, 3, 1, 2, 3, 1, 1, 2, 2, 1, 2, 3, 3, 10, 12, 10, 12]},
+    # the schedule of C14_share_only_when_queries_enabled_refuted: queries are disabled, the child is
+    # started, parent and child call a synchronized function at the same time (both start methods)
+    {"threads": [[1, 0, [["start", 10], ["call", 0, 0]]], [10, 10, [["call", 0, 0]]]],
+     "sched": [CONF, 1, 1, 1, 1, 1, 1, 1, 10, 10, 10], "method": "spawn"},
+    {"threads": [[1, 0, [["start", 10], ["call", 0, 0]]], [10, 10, [["call", 0, 0]]]],
+     "sched": [CONF, 1, 1, 1, 1, 1, 1, 1, 10, 10, 10], "method": "fork"},
+    # queries disabled while the start is in flight, re-enabled after it; a second start afterwards;
+    # the child changes its own configuration and starts a grandchild; queries on both sides
+    {"threads": [[1, 0, [["start", 10], ["call", 0, 1]]], [2, 0, [["call", 1, 1], ["start", 12]]],
+                 [10, 10, [["start", 11], ["call", 0, 1]]], [11, 11, [["call", 0, 1]]], [12, 12, [["call", 1, 0]]]],
+     "sched": [1, 1, CONF, 1, 1, CONF + 1, CONF + 3, 2, 2, 2, 10, CONF + 80, 10, 10, 10, 2, 0, 2, 2, 2, 2, 2, CONF,
+               2, 2, 2, 2, 10, 10, 11, 11, 12, 12, 1, 1, 0, 11, 11], "method": "fork"},
+    # every setting changed before the first start, in a process that does not exist yet as well
+    {"threads": [[1, 0, [["call", 0, 0], ["start", 10]]], [2, 0, [["call", 0, 1]]], [10, 10, [["call", 1, 1]]],
+                 [13, 10, [["call", 0, 0]]]],
+     "sched": [CONF, CONF + 3, CONF + 5, CONF + 80, 1, 1, 1, 2, 2, 1, 1, 1, 1, 1, 1, 1, 10, 13, 10, 13, 2, 2, 0, 2, 10, 13],
+     "method": "spawn"},
 ]
 
 
@@ -182,9 +236,10 @@ def nl(l):
 
 
 def case_term(c, r):
-    return "{| l_threads := %s; l_term := %d; l_sched := %s; l_obs := %s |}" % (
+    return "{| qc_case := {| l_threads := %s; l_term := %d; l_sched := %s; l_obs := %s |}; qc_fork := %s |}" % (
         core.coq_list(c["threads"], lambda t: "(%d, %d, %s)" % (t[0], t[1], core.coq_list(t[2], cmd_term))),
-        TERM, nl(r["sched"]), core.coq_list(r["log"], lambda e: "(%d, %s)" % (e[0], nl(e[1]))))
+        TERM, nl(r["sched"]), core.coq_list(r["log"], lambda e: "(%d, %s)" % (e[0], nl(e[1]))),
+        "true" if c.get("method", "spawn") == "fork" else "false")
 
 
 def evaluate(cases, tag="c14", want_racy=False):
@@ -201,15 +256,17 @@ def evaluate(cases, tag="c14", want_racy=False):
     good = [i for i, r in enumerate(impl) if "log" in r]
     terms = [case_term(cases[i], impl[i]) for i in good]
     # one evaluation: bits 0-1 = check (1 differs from the model, 2 contradicts the
-    # specification), bit 2 = the single-`with` variant would break the property here
-    out, errs = core.coq_shards(tag, HEADER, terms, "lcase",
-                                "bad_racy cases" if want_racy else "bad cases", shard=SHARD)
+    # specification), bit 2 = the single-`with` variant would break the property here, bit 3 = the
+    # variant that shares the lock only while queries are enabled would
+    out, errs = core.coq_shards(tag, HEADER, terms, "qcase",
+                                "badQ_variants cases" if want_racy else "badQ cases", shard=SHARD)
     errors += errs
     codes = [0] * len(cases)
-    racy = 0
+    racy = [0, 0]
     for idx, code in out:
         codes[good[idx]] = code & 3
-        racy += bool(code & 4)
+        racy[0] += bool(code & 4)
+        racy[1] += bool(code & 8)
     return codes, errors, impl, racy
 
 
@@ -242,7 +299,8 @@ def describe(c):
     def prog(p):
         return "; ".join("call(depth=%d%s)" % (x[1], ",query" if x[2] else "") if x[0] == "call" else "start(P%d)" % x[1] for x in p)
     return ("threads " + " | ".join("t%d@P%d: %s" % (t[0], t[1], prog(t[2])) for t in c["threads"])
-            + " ; schedule " + " ".join(map(str, c["sched"])))
+            + " ; children start by " + c.get("method", "spawn")
+            + " ; schedule " + " ".join(map(item_str, c["sched"])))
 
 
 # exhaustive enumeration (thorough tier): ALL schedules of the given depth in which every
@@ -259,6 +317,10 @@ EXHAUSTIVE = [
     # two racing starters + a caller
     ({"threads": [[1, 0, [["start", 10]]], [2, 0, [["start", 12]]], [3, 0, [["call", 0, 0]]],
                   [10, 10, [["call", 0, 0]]], [12, 12, [["call", 0, 0]]]]}, 9),
+    # starter-and-caller + the child's thread + the configuration: queries disabled / re-enabled at
+    # ANY point of the start and of the calls (each change at most once per schedule)
+    ({"threads": [[1, 0, [["start", 10], ["call", 0, 0]]], [10, 10, [["call", 0, 0]]]],
+      "conf_items": [CONF, CONF + 1], "method": "spawn"}, 12),
 ]
 
 
@@ -310,13 +372,13 @@ def with_sites():
     return sites
 
 
-def run_mp(method, calls=12, hold=0.001, control=False, timeout=150):
+def run_mp(method, calls=12, hold=0.001, control=False, timeout=150, disable=False):
     """real processes under a pty; returns (intervals or None, info)"""
     master, slave = pty.openpty()
     out = tempfile.NamedTemporaryFile(prefix="c14mp_", suffix=".json", delete=False)
     out.close()
-    case = {"mp": {"method": method, "calls": calls, "hold": hold, "control": control}}
-    info = {"method": method, "control": control}
+    case = {"mp": {"method": method, "calls": calls, "hold": hold, "control": control, "disable_queries": disable}}
+    info = {"method": method, "control": control, "queries_disabled_before_first_start": disable}
     try:
         p = subprocess.Popen([core.IMPL_PY, str(core.VERIF / "harness" / "impl" / "impl_c14.py"), "--mp",
                               json.dumps(case), out.name], stdin=slave, stdout=slave, stderr=slave,
@@ -362,9 +424,11 @@ def run_mp(method, calls=12, hold=0.001, control=False, timeout=150):
 
 
 def mp_plan(ctx):
-    plan = [("fork", False), ("spawn", False), ("spawn", True)]
+    """(start method, control run, term_image.disable_queries() before the first Process.start())"""
+    plan = [("fork", False, False), ("spawn", False, False), ("spawn", True, False), ("spawn", False, True)]
     if not ctx.quick:
-        plan += [("forkserver", False), ("fork", False), ("spawn", False)]
+        plan += [("forkserver", False, False), ("fork", False, True), ("forkserver", False, True),
+                 ("fork", False, False), ("spawn", False, False)]
     return plan
 
 
@@ -391,11 +455,13 @@ def run(ctx):
 
         def one(mc):
             try:
-                return run_mp(mc[0], calls=12 if ctx.quick else 40, control=mc[1], timeout=40 if ctx.quick else 150)
+                return run_mp(mc[0], calls=12 if ctx.quick else 40, control=mc[1], timeout=40 if ctx.quick else 150,
+                              disable=mc[2])
             except Exception as e:  # evidence only: an infrastructure problem is never an alarm
-                return None, {"method": mc[0], "control": mc[1], "skipped": f"{type(e).__name__}: {e}"}
+                return None, {"method": mc[0], "control": mc[1], "queries_disabled_before_first_start": mc[2],
+                              "skipped": f"{type(e).__name__}: {e}"}
 
-        ex = ThreadPoolExecutor(max_workers=3)
+        ex = ThreadPoolExecutor(max_workers=4)
         mp_future = [ex.submit(one, mc) for mc in mp_plan(ctx)]
     xcases = []
     if ctx.replay and "xchg" in ctx.replay["replay"]["case"]:
@@ -416,7 +482,7 @@ def run(ctx):
                 exhaustive_info.append({"threads": describe(dict(base, sched=[])).split(" ; ")[0], "depth": depth,
                                         "schedules": len(more), "prefix_runs": runs})
                 cases += more
-    codes, errs, impl, racy = evaluate(cases, want_racy=not ctx.replay) if cases else ([], [], [], 0)
+    codes, errs, impl, racy = evaluate(cases, want_racy=not ctx.replay) if cases else ([], [], [], [0, 0])
     errors += errs
     mismatches, failures = [], []
     # ---- exchanges: every byte read belongs to the reader's own reply (judged in Coq)
@@ -447,7 +513,10 @@ def run(ctx):
                                        "what": "terminal I/O outside one hold of the terminal lock (discipline of "
                                                "C14_discipline_gives_own_reply) — harmless on this schedule"})
     hist = {"root_threads": {}, "sched_len": {}, "events": {}, "starts": 0, "swaps": 0, "old_lock_then_new": 0,
-            "unfinished_after_completion": 0, "would_race_with_single_with": racy,
+            "unfinished_after_completion": 0, "would_race_with_single_with": racy[0],
+            "would_race_if_lock_shared_only_while_queries_enabled": racy[1],
+            "start_method": {}, "conf_changes": {}, "cases_with_conf_change": 0,
+            "first_start_with_queries_disabled": 0,
             "exhaustive": exhaustive_info, "exchange": xhist}
     distinct = set()
     names = {1: "acquire", 2: "release", 3: "enter", 4: "exit", 5: "write", 6: "reply", 7: "swap", 8: "start"}
@@ -456,11 +525,20 @@ def run(ctx):
         hist["root_threads"][k] = hist["root_threads"].get(k, 0) + 1
         L = len(c["sched"]) // 10 * 10
         hist["sched_len"][L] = hist["sched_len"].get(L, 0) + 1
+        hist["start_method"][c.get("method", "spawn")] = hist["start_method"].get(c.get("method", "spawn"), 0) + 1
+        confs = [x for x in c["sched"] if x >= CONF]
+        hist["cases_with_conf_change"] += bool(confs)
+        for x in confs:
+            k = item_str(x)[1:-1].split(":")[1] + (" (root)" if (x - CONF) // 8 == 0 else " (child)")
+            hist["conf_changes"][k] = hist["conf_changes"].get(k, 0) + 1
         if "log" not in r:
             continue
         for t, e in r["log"]:
             hist["events"][names[e[0]]] = hist["events"].get(names[e[0]], 0) + 1
         hist["starts"] += sum(1 for _, e in r["log"] if e[0] == 8)
+        sc = r.get("starts_conf") or []
+        hist["first_start_with_queries_disabled"] += bool(sc and not sc[0][1])
+        hist["starts_with_queries_disabled"] = hist.get("starts_with_queries_disabled", 0) + sum(1 for x in sc if not x[1])
         hist["swaps"] += sum(1 for _, e in r["log"] if e[0] == 7)
         hist["unfinished_after_completion"] += bool(r["unfinished"])
         # a thread that took the old lock first and the new one second (the hand-over race)
@@ -514,6 +592,9 @@ def run(ctx):
     assumptions = [
         "atomicity grain: one read of the module global or one lock operation per step; the scheduler interleaves "
         "threads of all processes arbitrarily",
+        "configuration: a setting is a boolean field of the process's configuration that any thread of the process may "
+        "change at any time; a child begins with a fresh (spawn / forkserver) or an inherited (fork) configuration; a "
+        "platform with multiprocessing.synchronize (the `except ImportError` arm of the start wrapper is outside the property)",
         "Process.start() is never issued from inside a synchronized function (documented as unsupported); a process is "
         "started at most once (Process.start refuses a second start)",
         "RLock semantics (threading and multiprocessing): re-entrant (owner, count), acquire blocks while owned by "
@@ -525,10 +606,10 @@ def run(ctx):
     if mp_future is not None:
         outs = [f.result() for f in mp_future]
         runs, infos = [], []
-        for (method, control), (iv, info) in zip(mp_plan(ctx), outs):
+        for (method, control, disabled), (iv, info) in zip(mp_plan(ctx), outs):
             infos.append(info)
             if iv and not control:  # the control run is expected to overlap (no hand-over)
-                runs.append((method, iv))
+                runs.append((method + (", queries disabled before the first start" if disabled else ""), iv))
         if runs:
             terms = [core.coq_list(iv, lambda p: "(%s, %s)" % (core.z(p[0]), core.z(p[1]))) for _, iv in runs]
             bad, errs = core.coq_shards("c14m", HEADER, terms, "list (Z * Z)", "stamps_bad cases", shard=10)
@@ -539,12 +620,20 @@ def run(ctx):
                                  "replay": {"intervals": runs[idx][1]}})
         extra["real_process_runs"] = infos
     return {
-        "corr_name": "Locks.macro schedule replay (model) == traced real lock_tty/_process_start_wrapper/_process_run_wrapper "
-                     "under the deterministic scheduler",
+        "corr_name": "LocksCfg.macroI schedule replay (model with the library configuration, code's policy) == traced real "
+                     "lock_tty/_process_start_wrapper/_process_run_wrapper under the deterministic scheduler, one module "
+                     "instance per simulated process",
         "evaluations": len(cases) + len(xcases),
         "distinct_nontrivial": len(distinct) + xhist["reader_had_to_wait"],
-        "rule": "corpus (incl. the hand-over race) + (thorough tier) ALL schedules of depth 11 / 9 / 9 in which every pick "
-                "moves, for three small thread systems (see histogram.exhaustive), each completed round-robin + random cases: 2-4 root threads with 0-2 lock_tty calls each "
+        "rule": "corpus (incl. the hand-over race and the schedule of C14_share_only_when_queries_enabled_refuted: queries "
+                "disabled, child started, parent and child call at once) + (thorough tier) ALL schedules of depth 11 / 9 / 9 / 12 "
+                "in which every pick moves, for four small thread systems (see histogram.exhaustive; the fourth offers "
+                "disable_queries / enable_queries at ANY point of a start and two calls), each completed round-robin + random "
+                "cases: CONFIGURATION changes as schedule items (75% of the cases: 1-5 of disable/enable_queries, "
+                "enable/disable_win_size_swap, set_query_timeout in the root or a child process at random positions; 45%: a "
+                "change before anything else, mostly disable_queries; see histogram.conf_changes, "
+                "first_start_with_queries_disabled), children started by spawn (fresh module instance) or fork (copy of the "
+                "parent's module state) at random; 2-4 root threads with 0-2 lock_tty calls each "
                 "(re-entrancy depth 0-2, optional terminal round trip in the innermost body), one Process.start "
                 "(15%: two racing starts), a child process thread (30%: a second thread in the child, 30%: a "
                 "grandchild started by the child), the FIFO terminal as pseudo-thread 0; random schedule of depth "
@@ -568,6 +657,13 @@ def run(ctx):
         "trusted": [
             "deterministic scheduler + traced lock objects in impl_c14.py (replace utils._tty_lock, utils._rlock_type, "
             "utils.mp_RLock and the wrapped originals of Process.start/run; lock_tty and both wrappers are the real code)",
+            "simulated processes: one instance of term_image/utils.py per process, executed from the library's source "
+            "(spawn: fresh; fork: fresh + the parent's plain module state copied, thread locks as private copies, "
+            "multiprocessing locks shared); the child's main thread goes through the real _process_run_wrapper when the "
+            "stub of the original Process.start runs; configuration changes call the real term_image.enable_queries() / "
+            "disable_queries() / ... re-bound to that instance",
+            "harness/tx/tx_locks.py (C14_start_handover_ignores_configuration / _shape): its reading of the if/elif/else "
+            "chain of _process_start_wrapper and of the first statement of _process_run_wrapper",
             "reads of the module global cannot be intercepted: the replay grain glues each read to the preceding step "
             "(Locks.macro); the theorems are proved at the finer grain",
             "real-process runs are supporting evidence only (timing-dependent coverage, deterministic verdict)",
